@@ -214,7 +214,7 @@ def push_inv(items, stack, i, loop_old):
         ('i.range', 0 <= i and i <= len(items)),
         ('stack.len', len(stack.deque) == len(s0) + i),
         ('stack.below', forall(0, len(s0), lambda j: stack.deque[j] == s0[j])),
-        ('stack.new', forall(0, i, lambda j: stack.deque[len(s0) + j] == items[j])),
+        ('stack.new', forall(len(s0), len(s0) + i, lambda j: stack.deque[j] == items[j - len(s0)])),
     ]
 
 
@@ -501,3 +501,407 @@ class OP_LESS_OR_EQUAL_c:
         v1 = bytes_to_int(stack.get())
         v2 = bytes_to_int(stack.get())
         stack.put(b'\xff' if v1 <= v2 else b'\x00')
+
+
+# ================================================================================== batch 2
+from pyvc.vocab import repeat, top_items, int_sum, int_prod, int_prod_from, imin, use_lemma, ulittle
+from secrets import token_bytes
+from time import time
+from math import isnan
+
+
+def opc_alloc_limit(tape, stack, cache):
+    """C07: no primitive may build a value whose size is an attacker-chosen number unrelated to the
+    configured limits"""
+    return 256 * (stack.max_item_size + 256)
+
+
+OPC.alloc_limit = opc_alloc_limit
+
+
+@contract('functions.OP_COPY')
+class OP_COPY_c:
+    """'... pull a value from the stack; place that value and a number of copies corresponding to the
+    int from the tape back onto the stack.'  (n + 1 items in total)"""
+    extends = OPCK
+    modifies = TAPE_STACK
+
+    def spec(tape, stack, cache):
+        n = rd_u8(tape)
+        item = stack.get()
+        put_all(stack, repeat(item, n + 1))
+
+    def inv0(item, n_copies, stack, i, loop_old):
+        return push_inv(repeat(item, n_copies + 1), stack, i, loop_old)
+
+    def var0(n_copies, i):
+        return n_copies + 1 - i
+    loops = {0: {'inv': inv0, 'variant': var0}}
+
+
+@contract('functions.OP_REVERSE')
+class OP_REVERSE_c:
+    """'... reverse that number of items from the top of the stack.'  ScriptExecutionError if the stack
+    holds fewer."""
+    extends = OPCK
+    modifies = TAPE_STACK
+
+    def spec(tape, stack, cache):
+        count = rd_u8(tape)
+        if len(stack.deque) < count:
+            raise ScriptExecutionError
+        items = take_top(stack, count)
+        put_all(stack, items)
+
+    def inv0(res, stack, i, loop_old):
+        return pull_inv(res, stack, i, loop_old)
+
+    def var0(count, i):
+        return count - i
+
+    def inv1(items, stack, i, loop_old):
+        return push_inv(items, stack, i, loop_old)
+
+    def var1(items, i):
+        return len(items) - i
+    loops = {0: {'inv': inv0, 'variant': var0}, 1: {'inv': inv1, 'variant': var1, 'elem': 'none'}}
+
+
+@contract('functions.bytes_are_same')
+class bytes_are_same_c:
+    """'Timing-attack safe bytes comparison.'  The result is plain equality of the two strings.
+    Uses the prelude law xor_zero: ulittle(xor(a, b)) == 0 iff a == b, for equal lengths."""
+    params = {'b1': 'bytes', 'b2': 'bytes'}
+    modifies = ()
+
+    def requires(b1, b2):
+        return [('lemma', use_lemma('xor_zero', b1, b2))]
+
+    def spec(b1, b2):
+        return b1 == b2
+
+
+@contract('functions.xor')
+class xor_c:
+    """'XOR two equal-length byte strings together.'"""
+    params = {'b1': 'bytes', 'b2': 'bytes'}
+    modifies = ()
+    pure = ('xor_f', 'bytes')
+    trusted = True     # byte-wise loop: bounded stand-in (props/bounded.py), see DESIGN 2.10
+    raises = ()
+
+    def requires(b1, b2):
+        return [('equal-length', len(b1) == len(b2))]
+
+    def ensures(old, b1, b2, result, raised):
+        return [('len', len(result) == len(b1)),
+                ('bytes', forall(0, len(b1), lambda j: result[j] == b1[j] ^ b2[j]))]
+
+
+@contract('functions.or_bytes')
+class or_bytes_c:
+    params = {'b1': 'bytes', 'b2': 'bytes'}
+    modifies = ()
+    pure = ('or_f', 'bytes')
+    trusted = True
+    raises = ()
+
+    def requires(b1, b2):
+        return [('equal-length', len(b1) == len(b2))]
+
+    def ensures(old, b1, b2, result, raised):
+        return [('len', len(result) == len(b1)),
+                ('bytes', forall(0, len(b1), lambda j: result[j] == b1[j] | b2[j]))]
+
+
+@contract('functions.and_bytes')
+class and_bytes_c:
+    params = {'b1': 'bytes', 'b2': 'bytes'}
+    modifies = ()
+    pure = ('and_f', 'bytes')
+    trusted = True
+    raises = ()
+
+    def requires(b1, b2):
+        return [('equal-length', len(b1) == len(b2))]
+
+    def ensures(old, b1, b2, result, raised):
+        return [('len', len(result) == len(b1)),
+                ('bytes', forall(0, len(b1), lambda j: result[j] == b1[j] & b2[j]))]
+
+
+@contract('functions.OP_EQUAL')
+class OP_EQUAL_c:
+    """'Pull 2 items from the stack; compare them; put the bool result onto the stack.'"""
+    extends = OPCK
+    modifies = STACK_ONLY
+
+    def spec(tape, stack, cache):
+        a = stack.get()
+        b = stack.get()
+        stack.put(b'\xff' if a == b else b'\x00')
+
+
+@contract('functions.OP_EQUAL_VERIFY')
+class OP_EQUAL_VERIFY_c:
+    """'Runs OP_EQUAL then OP_VERIFY.'"""
+    extends = OPCK
+    modifies = STACK_ONLY
+
+    def spec(tape, stack, cache):
+        a = stack.get()
+        b = stack.get()
+        stack.put(b'\xff' if a == b else b'\x00')       # the intermediate result obeys the item limits
+        if not bytes_to_bool(stack.get()):
+            raise ScriptExecutionError
+
+
+def pad_inv_a(item1, item2, loop_old):
+    """`while len(item1) < len(item2): item1 += b'\\x00'`"""
+    a0 = loop_old.item1
+    return [('prefix', item1[:len(a0)] == a0),
+            ('grows', len(item1) >= len(a0)),
+            ('bounded', len(item1) <= len(item2) or len(item1) == len(a0)),
+            ('zeros', forall(len(a0), len(item1), lambda j: item1[j] == 0))]
+
+
+def pad_inv_b(item1, item2, loop_old):
+    b0 = loop_old.item2
+    return [('prefix', item2[:len(b0)] == b0),
+            ('grows', len(item2) >= len(b0)),
+            ('bounded', len(item2) <= len(item1) or len(item2) == len(b0)),
+            ('zeros', forall(len(b0), len(item2), lambda j: item2[j] == 0))]
+
+
+def padded(a, n):
+    """a right-padded with zero bytes to length n (n >= len(a))"""
+    return a + zeros(n - len(a))
+
+
+def zeros(n):
+    return b'\x00' * n
+
+
+# --------------------------------------------------------------------------------- integer sums
+def sum_inv(total, stack, i, loop_old):
+    s0 = loop_old.stack.deque
+    return stack_ok(stack) + [
+        ('stack.len', len(stack.deque) == len(s0) - i),
+        ('stack.below', forall(0, len(stack.deque), lambda j: stack.deque[j] == s0[j])),
+        ('nonempty', all_nonempty(top_items(loop_old.stack, i))),
+    ]
+
+
+@contract('functions.OP_ADD_INTS')
+class OP_ADD_INTS_c:
+    """'... pull that many values from the stack, interpreting them as signed ints; add them together;
+    put the result back onto the stack.'  Errors in the order the items are pulled: ValueError for an
+    empty item, IndexError when the stack runs out."""
+    extends = OPCK
+    modifies = TAPE_STACK
+
+    def spec(tape, stack, cache):
+        size = rd_u8(tape)
+        m = imin(size, len(stack.deque))
+        items = take_top(stack, m)
+        if not all_nonempty(items):
+            raise ValueError
+        if size > m:
+            raise IndexError
+        stack.put(int_to_bytes(int_sum(items)))
+
+    def inv0(total, stack, i, loop_old):
+        return sum_inv(total, stack, i, loop_old) + [
+            ('total', total == int_sum(top_items(loop_old.stack, i)))]
+
+    def var0(size, i):
+        return size - i
+    loops = {0: {'inv': inv0, 'variant': var0}}
+
+
+@contract('functions.OP_SUBTRACT_INTS')
+class OP_SUBTRACT_INTS_c:
+    """'... subtract count-1 of them from the first (top) one; put the result onto the stack.'
+    pinned_unspecified: count 0 consumes one item (as count 1)."""
+    extends = OPCK
+    modifies = TAPE_STACK
+
+    def spec(tape, stack, cache):
+        count = rd_u8(tape)
+        first = bytes_to_int(stack.get())
+        rest = count - 1 if count >= 1 else 0
+        m = imin(rest, len(stack.deque))
+        items = take_top(stack, m)
+        if not all_nonempty(items):
+            raise ValueError
+        if rest > m:
+            raise IndexError
+        stack.put(int_to_bytes(first - int_sum(items)))
+
+    def inv0(total, stack, i, loop_old):
+        return sum_inv(total, stack, i, loop_old) + [
+            ('total', total == loop_old.total - int_sum(top_items(loop_old.stack, i)))]
+
+    def var0(count, i):
+        return count - 1 - i
+    loops = {0: {'inv': inv0, 'variant': var0}}
+
+
+@contract('functions.OP_MULT_INTS')
+class OP_MULT_INTS_c:
+    """'... multiply them together; put the result back onto the stack.'  pinned_unspecified: count 0
+    consumes one item."""
+    extends = OPCK
+    modifies = TAPE_STACK
+
+    def spec(tape, stack, cache):
+        count = rd_u8(tape)
+        first = bytes_to_int(stack.get())
+        rest = count - 1 if count >= 1 else 0
+        m = imin(rest, len(stack.deque))
+        items = take_top(stack, m)
+        if not all_nonempty(items):
+            raise ValueError
+        if rest > m:
+            raise IndexError
+        stack.put(int_to_bytes(int_prod_from(first, items)))
+
+    def inv0(total, stack, i, loop_old):
+        return sum_inv(total, stack, i, loop_old) + [
+            ('lemma', use_lemma('iprodc_step', top_items(loop_old.stack, i), i, loop_old.total)),
+            ('total', total == int_prod_from(loop_old.total, top_items(loop_old.stack, i)))]
+
+    def var0(count, i):
+        return count - 1 - i
+    loops = {0: {'inv': inv0, 'variant': var0}}
+
+
+# ------------------------------------------------------------------------------------------ NOP
+@contract('functions.NOP')
+class NOP_c:
+    """C20: 'Read the next byte from the tape, interpreting as a signed int and pull that many values
+    from the stack. Does nothing with the values.  Raises ScriptExecutionError if count is negative.'
+    IndexError if the count exceeds the stack; no other effect."""
+    extends = OPCK
+    modifies = TAPE_STACK
+
+    def spec(tape, stack, cache):
+        count = sdecode(tape.read(1))
+        if count < 0:
+            raise ScriptExecutionError
+        take_top(stack, count)
+
+    def inv0(stack, i, loop_old):
+        s0 = loop_old.stack.deque
+        return stack_ok(stack) + [
+            ('stack.len', len(stack.deque) == len(s0) - i),
+            ('stack.below', forall(0, len(stack.deque), lambda j: stack.deque[j] == s0[j]))]
+
+    def var0(count, i):
+        return count - i
+    loops = {0: {'inv': inv0, 'variant': var0}}
+
+
+# ----------------------------------------------------------------------------------------- random
+@contract('functions.OP_RANDOM')
+class OP_RANDOM_c:
+    """language_spec: '[int] OP_RANDOM - pulls an int from the stack and puts a random byte string
+    that long onto the stack'.  ValueError for a negative size; C07: the size must be checked against
+    the item limit before anything of that size is allocated."""
+    extends = OPCK
+    modifies = STACK_ONLY
+
+    def spec(tape, stack, cache):
+        size = bytes_to_int(stack.get())
+        if size > stack.max_item_size and size >= 0:
+            raise ScriptExecutionError
+        stack.put(token_bytes(size))
+
+
+# ------------------------------------------------------------------------------------------- time
+@contract('functions.OP_CHECK_TIMESTAMP')
+class OP_CHECK_TIMESTAMP_c:
+    """C16: 'with execution timestamp t, verifier clock now and the slack thresholds, OP_CHECK_TIMESTAMP
+    with constraint c yields true exactly when t >= c and (the threshold is <= 0 or t - now <
+    ts_threshold)'.  c is the item read as an unsigned int; ScriptExecutionError for an empty item, a
+    missing / non-int cache timestamp, a missing / non-int threshold."""
+    extends = OPCK
+    modifies = STACK_ONLY
+
+    def spec(tape, stack, cache):
+        item = stack.get()
+        if len(item) == 0:
+            raise ScriptExecutionError
+        c = ubig(item)
+        if 'timestamp' not in cache or type(cache['timestamp']) is not int:
+            raise ScriptExecutionError
+        if 'ts_threshold' not in tape.flags or type(tape.flags['ts_threshold']) is not int:
+            raise ScriptExecutionError
+        t = cache['timestamp']
+        thr = tape.flags['ts_threshold']
+        now = int(time())
+        ok = t >= c and (thr <= 0 or t - now < thr)
+        stack.put(b'\xff' if ok else b'\x00')
+
+
+@contract('functions.OP_CHECK_TIMESTAMP_VERIFY')
+class OP_CHECK_TIMESTAMP_VERIFY_c:
+    """C16: 'the _VERIFY forms raise instead of yielding false'"""
+    extends = OPCK
+    modifies = STACK_ONLY
+
+    def spec(tape, stack, cache):
+        item = stack.get()
+        if len(item) == 0:
+            raise ScriptExecutionError
+        c = ubig(item)
+        if 'timestamp' not in cache or type(cache['timestamp']) is not int:
+            raise ScriptExecutionError
+        if 'ts_threshold' not in tape.flags or type(tape.flags['ts_threshold']) is not int:
+            raise ScriptExecutionError
+        t = cache['timestamp']
+        thr = tape.flags['ts_threshold']
+        now = int(time())
+        if not (t >= c and (thr <= 0 or t - now < thr)):
+            raise ScriptExecutionError
+
+
+@contract('functions.OP_CHECK_EPOCH')
+class OP_CHECK_EPOCH_c:
+    """C16: 'OP_CHECK_EPOCH [yields true] exactly when c - now < epoch_threshold'.
+    ScriptExecutionError for an empty item or a missing / non-int / negative threshold."""
+    extends = OPCK
+    modifies = STACK_ONLY
+
+    def spec(tape, stack, cache):
+        item = stack.get()
+        if len(item) == 0:
+            raise ScriptExecutionError
+        c = ubig(item)
+        if 'epoch_threshold' not in tape.flags or type(tape.flags['epoch_threshold']) is not int:
+            raise ScriptExecutionError
+        thr = tape.flags['epoch_threshold']
+        if thr < 0:
+            raise ScriptExecutionError
+        now = int(time())
+        stack.put(b'\xff' if c - now < thr else b'\x00')
+
+
+@contract('functions.OP_CHECK_EPOCH_VERIFY')
+class OP_CHECK_EPOCH_VERIFY_c:
+    extends = OPCK
+    modifies = STACK_ONLY
+
+    def spec(tape, stack, cache):
+        item = stack.get()
+        if len(item) == 0:
+            raise ScriptExecutionError
+        c = ubig(item)
+        if 'epoch_threshold' not in tape.flags or type(tape.flags['epoch_threshold']) is not int:
+            raise ScriptExecutionError
+        thr = tape.flags['epoch_threshold']
+        if thr < 0:
+            raise ScriptExecutionError
+        now = int(time())
+        if not (c - now < thr):
+            raise ScriptExecutionError
